@@ -6,6 +6,7 @@ import Ufw.Tie.VarintLoops.Length
 import Ufw.Tie.VarintLoops.Decode
 import Ufw.Tie.VarintLoops.FromSource
 import Ufw.Tie.VarintLoops.Encode
+import Ufw.Tie.VarintLoops.EndToEnd
 #print axioms Ufw.Props.C14.canonical
 #print axioms Ufw.Props.C14.length_eq
 #print axioms Ufw.Props.C14.encode_buf_spec
@@ -49,3 +50,4 @@ import Ufw.Tie.VarintLoops.Encode
 #print axioms Ufw.Tie.VarintLoops.set_drop
 #print axioms Ufw.Tie.VarintLoops.encode_loop
 #print axioms Ufw.Tie.VarintLoops.gen_varint_encode
+#print axioms Ufw.Tie.VarintLoops.c_roundtrip_u64
